@@ -602,6 +602,13 @@ func derivesFrom(v ssa.Value, depth int, pred func(ssa.Value) bool) bool {
 		if d <= 0 {
 			return false
 		}
+		if p, ok := v.(*ssa.Parameter); ok {
+			// inside a helper that is being looked into: the parameter is the call's argument
+			if a, bound := activeSubst[p]; bound && a != v {
+				return walk(a, d)
+			}
+			return false
+		}
 		if a, ok := v.(*ssa.Alloc); ok {
 			// composite under construction: values stored into it, its fields and elements (nested)
 			for _, sv := range storedInto(a, 6) {
